@@ -135,6 +135,17 @@ def master_layout(rng, axes, kind):
                 locs.append(l)
         if rng.random() < 0.5:
             locs += [x for x in on_axis if x not in locs][: rng.randint(0, 2)]
+    if kind == "offaxis" and len(axes) >= 2:
+        # on-axis masters plus full masters strictly inside a quadrant, at fractions that are not dyadic: their weights
+        # against the other masters (0.3, 0.7, ...) make the delta sums inexact in floating point
+        locs += on_axis
+        for _ in range(rng.randint(1, 2)):
+            l = []
+            for i in range(len(axes)):
+                w = rng.choice([x for x in (0, 2) if b[i][x] != b[i][1]])
+                l.append(round(b[i][1] + rng.choice([0.3, 0.7, 0.1, 0.9, 0.6]) * (b[i][w] - b[i][1]), 6))
+            if tuple(l) not in locs:
+                locs.append(tuple(l))
     if kind in ("intermediate", "mixed"):
         for _ in range(rng.randint(1, 2)):
             i, w = rng.choice(sides)
@@ -615,6 +626,34 @@ def add_point_axis(model, rng, mapped=0.5):
         mm["design_loc"] = {a["tag"]: (d if a["tag"] == tag else mm["design_loc"][a["tag"]]) for a in model["axes"]}
     for inst in model["instances"]:
         inst["user_loc"] = {a["tag"]: (v if a["tag"] == tag else inst["user_loc"][a["tag"]]) for a in model["axes"]}
+    return model
+
+
+def tie_values(model, rng):
+    """Rounding ties in the deltas: every on-axis master on multiples of 10, the off-axis masters on n + 0.5. The delta of
+    an off-axis master is x - sum(weight * delta) with weights like 0.3 / 0.7: mathematically n + 0.5, in floating point an ulp
+    to either side depending on the order the terms are accumulated in - the rounded delta must still be one value."""
+    full = [m for m in model["masters"] if m["layer"] is None]
+    b = {a["tag"]: design_bounds(a) for a in model["axes"]}
+
+    def off_axis(m):
+        return sum(1 for t, v in m["design_loc"].items() if v != b[t][1]) >= 2
+    for g in model["glyphs"]:
+        for m in full:
+            layer = g["layers"].get(m["name"])
+            if layer is None:
+                continue
+            if off_axis(m):
+                snap = lambda v: math.floor(v) + 0.5  # noqa: E731
+            else:
+                snap = lambda v: 10 * round(v / 10)  # noqa: E731
+            layer["width"] = max(0, snap(layer["width"]))
+            for c in layer["contours"]:
+                for pt in c:
+                    pt[0], pt[1] = snap(pt[0]), snap(pt[1])
+            layer["contours"] = [dedupe(c) for c in layer["contours"]]
+            for comp in layer["components"]:
+                comp["xform"][4], comp["xform"][5] = snap(comp["xform"][4]), snap(comp["xform"][5])
     return model
 
 
